@@ -100,6 +100,10 @@ func coqTag(t string) string {
 		return "TGoBlock false"
 	case 'P':
 		return "TGoPcall"
+	case 'E':
+		return "TEntry true"
+	case 'e':
+		return "TEntry false"
 	case 'X':
 		h := "HGo"
 		if t[1] == 'l' {
@@ -129,7 +133,7 @@ type caseInput struct {
 
 func nontrivialStack(s []string) bool {
 	for _, t := range s {
-		if t != "L" {
+		if t != "L" && t != "E" {
 			return true
 		}
 	}
@@ -192,14 +196,6 @@ func addJob(w *lib.Writer, j job, res jobResult, fail string) {
 			continue
 		}
 		goChoices, fuel := "[]", 0
-		if j.GoLoop > 0 {
-			it := make([]string, o.GoRemaining)
-			for i := range it {
-				it[i] = "GCall [TLua true; TGoPcall]"
-			}
-			goChoices = lib.CoqList(it)
-			fuel = 2 * o.GoRemaining
-		}
 		w.Add(lib.Case{
 			Coq: fmt.Sprintf("CFire %s %s %s %s %s %s %s %s", coqStack(o.Stack), goChoices, z(fuel),
 				lib.CoqBool(o.TraceOK), lib.CoqBool(o.PrefixOK), z(o.PollsAfter), z(o.EmitsAfter), z(o.Outc)),
@@ -210,12 +206,7 @@ func addJob(w *lib.Writer, j job, res jobResult, fail string) {
 
 func z(i int) string { return lib.CoqZ(int64(i)) }
 
-func kfOf(j job) []string {
-	if j.GoLoop > 0 {
-		return []string{"C11-2"}
-	}
-	return nil
-}
+func kfOf(j job) []string { return nil }
 
 func toI64(a []int) []int64 {
 	out := make([]int64, len(a))
@@ -294,6 +285,8 @@ func main() {
 		runJobs(w, constructs(a.Tier))
 		runJobs(w, randomJobs(r, a.Tier))
 		runBlocking(w, a.Tier)
+		runMidScript(w)
+		runCustomCtx(w)
 	}
 	if err := w.Close(); err != nil {
 		panic(err)
@@ -312,6 +305,10 @@ func replay(w *lib.Writer, file string) {
 		panic(err)
 	}
 	switch rp.Input.Kind {
+	case "midscript_remove", "midscript_attach":
+		runMidScript(w)
+	case "custom_ctx":
+		runCustomCtx(w)
 	case "block":
 		runBlockJobs(w, []blockJob{rp.Input.toBlock()})
 	default:
